@@ -49,6 +49,8 @@ pub struct RunCfg {
 pub struct Budget {
     pub quick: (u32, u32, u32),
     pub thorough: (u32, u32, u32),
+    /// proptest shrink iterations after a failure (each re-runs the whole case)
+    pub shrink: u32,
 }
 
 impl Budget {
@@ -319,7 +321,7 @@ where
                 config.failure_persistence = None;
                 config.rng_algorithm = RngAlgorithm::ChaCha;
                 config.rng_seed = RngSeed::Fixed(seed_for(cfg.seed, prop, &name, 0));
-                config.max_shrink_iters = 400;
+                config.max_shrink_iters = budget.shrink;
                 config.max_global_rejects = 1;
                 config.max_local_rejects = 1;
                 config.verbose = 0;
@@ -445,7 +447,7 @@ pub fn finish(
     let mut lines = Vec::new();
     let replay_dir = cfg.verif_dir.join("replays");
     let _ = std::fs::create_dir_all(&replay_dir);
-    for v in &out.violations {
+    for v in out.violations.iter().take(6) {
         let h = hash_of(&(v.suite.as_str(), v.case.to_string()));
         let path = replay_dir.join(format!(
             "{}-{}-{:016x}.json",
